@@ -90,4 +90,4 @@ SPEC = dict(
 # clause (c) at the connection level: the real ShipConnection under user cancel (the hub-model stream uses fake connections)
 SPEC["streams"] = [dict(imports="From Ship Require Import Base Conn ConnData ConnMon ConnCheck.", case_type="conn_case", check_fn="check_C10conn",
                         drivers=[dict(bin="shipdrv", args=["-prop", "conn"], n_quick=1000, n_thorough=20000, timeout=2400)],
-                        codes={13: "handshake_progressed_after_user_cancel"})]
+                        codes={113: "handshake_progressed_after_user_cancel"})]
